@@ -46,15 +46,38 @@ func long(n int, c byte) string {
 	return string(b)
 }
 
+func swapCase(s string) string {
+	b := []byte(s)
+	for i, ch := range b {
+		switch {
+		case ch >= 'a' && ch <= 'z':
+			b[i] = ch - 32
+		case ch >= 'A' && ch <= 'Z':
+			b[i] = ch + 32
+		}
+	}
+	return string(b)
+}
+
 func genCase(t *rapid.T) Case {
 	var c Case
-	credPool := []Cred{{"u1", "p1"}, {"u2", "p2"}, {"user", "pass"}, {"u1x", "p1"}, {long(255, 'a'), long(255, 'b')}, {"", ""}, {"u1", ""}}
-	switch rapid.IntRange(0, 3).Draw(t, "nCreds") {
+	// configured credentials: ordinary pairs, pairs that are prefixes / rotations
+	// of each other, pairs with an empty field (accepted by socks5.New; the daemon's
+	// config validation refuses them) and pairs that are valid configuration but
+	// cannot be presented at all (a field longer than 255 bytes)
+	credPool := []Cred{{"u1", "p1"}, {"u2", "p2"}, {"user", "pass"}, {"u1x", "p1"}, {long(255, 'a'), long(255, 'b')},
+		{"", ""}, {"u1", ""}, {"", "p1"}, {"alice", "secret"}, {"p1", "u1"}, {long(256, 'a'), "p"}, {"u", long(300, 'b')}, {"U1", "P1"}, {"u1\x00", "p1"}}
+	switch rapid.IntRange(0, 4).Draw(t, "nCreds") {
 	case 0:
 	case 1, 2:
-		c.Creds = []Cred{credPool[rapid.IntRange(0, 4).Draw(t, "cred0")]}
+		c.Creds = []Cred{credPool[rapid.IntRange(0, len(credPool)-1).Draw(t, "cred0")]}
+	case 3:
+		c.Creds = []Cred{credPool[0], credPool[1], credPool[rapid.IntRange(2, len(credPool)-1).Draw(t, "cred2")]}
 	default:
-		c.Creds = []Cred{credPool[0], credPool[1], credPool[rapid.IntRange(2, 4).Draw(t, "cred2")]}
+		n := rapid.IntRange(2, 5).Draw(t, "nPool")
+		for i := 0; i < n; i++ {
+			c.Creds = append(c.Creds, credPool[rapid.IntRange(0, len(credPool)-1).Draw(t, "credN")])
+		}
 	}
 	c.ClientSide = rapid.Bool().Draw(t, "clientSide")
 	// method list: length 0..255, boundary heavy
@@ -64,10 +87,12 @@ func genCase(t *rapid.T) Case {
 	}
 	c.SubVer = rapid.SampledFrom([]byte{1, 1, 1, 1, 0, 2, 5}).Draw(t, "subVer")
 	// supplied credentials: matching, wrong user, wrong password, prefix, empty, 255 bytes
-	kind := rapid.IntRange(0, 7).Draw(t, "supKind")
+	kind := rapid.IntRange(0, 15).Draw(t, "supKind")
 	base := Cred{"u1", "p1"}
+	other := Cred{"u2", "p2"}
 	if len(c.Creds) > 0 {
 		base = c.Creds[rapid.IntRange(0, len(c.Creds)-1).Draw(t, "which")]
+		other = c.Creds[rapid.IntRange(0, len(c.Creds)-1).Draw(t, "whichOther")]
 	}
 	switch kind {
 	case 0, 1, 2:
@@ -84,8 +109,52 @@ func genCase(t *rapid.T) Case {
 		if len(base.Pass) > 0 {
 			c.Pass = base.Pass[:len(base.Pass)-1]
 		}
-	default:
+	case 7:
 		c.User, c.Pass = long(255, 'a'), long(255, 'b')
+	case 8:
+		// the user/password boundary moved: same concatenation, other split
+		cat := base.User + base.Pass
+		k := rapid.IntRange(0, len(cat)).Draw(t, "split")
+		c.User, c.Pass = cat[:k], cat[k:]
+	case 9:
+		// user of one configured pair with the password of another
+		c.User, c.Pass = base.User, other.Pass
+	case 10:
+		c.User, c.Pass = base.Pass, base.User
+	case 11:
+		// letter case changed
+		c.User, c.Pass = swapCase(base.User), base.Pass
+		if rapid.Bool().Draw(t, "casePass") {
+			c.User, c.Pass = base.User, swapCase(base.Pass)
+		}
+	case 12:
+		// a NUL or space appended / prefix of the user
+		switch rapid.IntRange(0, 3).Draw(t, "pad") {
+		case 0:
+			c.User, c.Pass = base.User+"\x00", base.Pass
+		case 1:
+			c.User, c.Pass = base.User, base.Pass+" "
+		case 2:
+			c.User, c.Pass = " "+base.User, base.Pass
+		default:
+			if len(base.User) > 0 {
+				c.User = base.User[:len(base.User)-1]
+			}
+			c.Pass = base.Pass
+		}
+	case 13:
+		// right user, empty password / empty user, right password
+		if rapid.Bool().Draw(t, "emptyWhich") {
+			c.User, c.Pass = base.User, ""
+		} else {
+			c.User, c.Pass = "", base.Pass
+		}
+	case 14:
+		// the first 255 bytes of an over-long configured field
+		c.User, c.Pass = base.User, base.Pass
+	default:
+		c.User = rapid.StringN(0, 12, 12).Draw(t, "rndUser")
+		c.Pass = rapid.StringN(0, 12, 12).Draw(t, "rndPass")
 	}
 	if len(c.User) > 255 {
 		c.User = c.User[:255]
@@ -300,6 +369,14 @@ func prop(c Case) (o pbt.Outcome) {
 	o.Label("clientSide=%v", c.ClientSide)
 	o.Label("offers00=%v,02=%v", has(0), has(2))
 	o.Label("truncated=%v", truncated)
+	o.Label("matching=%v", matching)
+	unpresentable := len(c.Creds) > 0
+	for _, cr := range c.Creds {
+		if len(cr.User) <= 255 && len(cr.Pass) <= 255 {
+			unpresentable = false
+		}
+	}
+	o.Label("allConfiguredPairsUnpresentable=%v", unpresentable)
 	o.NonTrivial = len(c.Creds) > 0 && (len(distinct) >= 2 || c.SubVer != 1 || truncated)
 
 	// oracle
